@@ -132,7 +132,9 @@ func (e *Engine) verifyTop(fn *ssa.Function, c *Contract, res *FuncResult) {
 		fp = footprint{heaps: map[string][]func(T) T{}}
 	}
 	rets, _ := e.runBlocks(fr, fn.Blocks[0], st, nil, nil)
-	if os.Getenv("GVC_SPLIT_POST") != "" {
+	// Post-conditions are checked at every return site (instances of the same named
+	// obligation) and once more on the merged exit state, which then follows from them.
+	if len(rets) > 1 {
 		for _, r := range rets {
 			if r.st.pc.S == "false" {
 				continue
@@ -147,7 +149,11 @@ func (e *Engine) verifyTop(fn *ssa.Function, c *Contract, res *FuncResult) {
 					continue
 				}
 				g := e.evalSpec(fr, e.clauseFunc(c, cl), fullr, r.st, fr.entry)
-				e.oblige(r.st.clone(), "post", fmt.Sprintf("%s@L%d", clauseLabel(cl), line), g, r.pos)
+				lbl := clauseLabel(cl)
+				if os.Getenv("GVC_SPLIT_POST") != "" {
+					lbl = fmt.Sprintf("%s@L%d", lbl, line)
+				}
+				e.oblige(r.st.clone(), "post", lbl, g, r.pos)
 			}
 		}
 	}
